@@ -496,7 +496,7 @@ func TestCheck(t *testing.T) {
 	defer run.Finish()
 	run.Assume("archive node (every height retained); storage recorded live through Blockchain.SeekStorage is the reference")
 	run.Assume("read-only scripts are a fixed catalogue of native getters and helper-contract readers, not all scripts")
-	nh := ev.Pick(5, 9)
+	nh := ev.Pick(5, 24)
 	nb := ev.Pick(70, 120)
 	tier := ev.Tier()
 	w := vchain.DefaultWeights
